@@ -5,6 +5,7 @@ func init() {
 	vRegister("H_C05_strings", H_C05_strings)
 	vRegister("H_C05_gpos", H_C05_gpos)
 	vRegister("H_C05_isdn", H_C05_isdn)
+	vRegister("H_C05_longstr", H_C05_longstr)
 	vRegister("H_C05_mnemonics", H_C05_mnemonics)
 	vRegister("H_C05_generic", H_C05_generic)
 	vRegister("H_C05_nopresentation", H_C05_nopresentation)
@@ -157,6 +158,30 @@ func H_C05_isdn() {
 	rr1, off, err := UnpackRR(w, 0)
 	vAssume(err == nil && off == len(w))
 	vC05Reparse(rr1, w, TypeISDN)
+}
+
+// H_C05_longstr: character-strings at and around the 255-octet limit (TXT and SPF): one octet at the first,
+// a middle or the last position is arbitrary (so it may need an escape), the others are letters; a second string
+// may follow. The printed text must read back to octet-identical RDATA (in particular: not be split differently).
+func H_C05_longstr() {
+	t := []uint16{TypeTXT, TypeSPF}[vChoice("t", 2)]
+	n := []int{254, 255}[vChoice("n", 2)]
+	str := make([]byte, n)
+	for i := range str {
+		str[i] = 'a' + byte(i%26)
+	}
+	pos := []int{0, 100, n - 1}[vChoice("pos", 3)]
+	str[pos] = vU8("x")
+	w := []byte{1, vLower("l"), 0, byte(t >> 8), byte(t), 0, 1, 0, 0, 0, 60, 0, 0, byte(n)}
+	w = append(w, str...)
+	if vChoice("second", 2) == 1 {
+		w = append(w, 1, vLower("y"))
+	}
+	rd := len(w) - 13
+	w[11], w[12] = byte(rd>>8), byte(rd)
+	rr1, off, err := UnpackRR(w, 0)
+	vAssume(err == nil && off == len(w))
+	vC05Reparse(rr1, w, t)
 }
 
 // H_C05_gpos: GPOS holds three numeric text fields (RFC 1712); records with such fields read back.
